@@ -296,6 +296,16 @@ class Gen:
                         if isinstance(y, tuple):
                             walk(y)
         allf = d["fields"] if d["kind"] == "struct" else [f for v in d["variants"] for f in v["fields"]]
+        # a field whose key is the tag key makes serde write the key twice (and ts-rs declare the property twice): not a type
+        # any property speaks about; the tag moves out of the way
+        tag = d.get("tag") if d["kind"] == "struct" else (d["tagging"][1] if d["tagging"][0] == "internal" else None)
+        if tag is not None and any((f["rename"] if f["rename"] is not None else f["ident"].replace("r#", "")) == tag for f in allf):
+            tag2 = next(t for t in ("kind", "type", "tag_") if t != tag and
+                        not any((f["rename"] if f["rename"] is not None else f["ident"].replace("r#", "")) == t for f in allf))
+            if d["kind"] == "struct":
+                d["tag"] = tag2
+            else:
+                d["tagging"] = ("internal", tag2)
         for f in allf:
             walk(f["ty"])
         missing = [i for i in range(len(pn)) if i not in used]
